@@ -519,7 +519,13 @@ func (h *c16Hist) verify(stage string) {
 		if kind == "" {
 			kind, path = "unstable", "(content keeps changing while it is compared)"
 		}
-		h.ctx.Fail("L1", "go-value-aliases-pooled-buffer:"+kind,
+		key := "go-value-aliases-pooled-buffer:" + kind
+		if strings.Contains(x.what, "reused batch") {
+			// rows kept by shallow copy while the destination slice is reused: a later Read wrote
+			// through memory that belongs to rows already handed out
+			key = "go-value-overwritten-by-later-read:" + kind
+		}
+		h.ctx.Fail("L1", key,
 			fmt.Sprintf("a Go value filled by %s changed after %s (at %s)", x.what, stage, path),
 			h.detail(map[string]any{"handed_over_by": x.what, "changed_after": stage, "path": path, "history": h.ops}))
 		x.snap = c16CanonOf(x.obj) // report once
@@ -595,6 +601,13 @@ func c16Case(ctx *core.Ctx, e *gen.Entry, t *gen.Typed, r *rand.Rand, k int) {
 	rows := e.NewRows(n)
 	gen.FillRows(r, rows, prof)
 	cfg := gen.RandWriterCfg(r)
+	if r.Intn(2) == 0 {
+		// many small pages, so that read batches straddle page boundaries
+		pb := []int{1, 24, 64, 200}[r.Intn(4)]
+		cfg.Opts = append(cfg.Opts, parquet.PageBufferSize(pb))
+		cfg.PageBuf = pb
+		cfg.Desc += fmt.Sprintf(" pagebuf:=%d", pb)
+	}
 	var sh gen.Shredder
 	var valTexts []string
 	for i := 0; i < n; i++ {
@@ -636,6 +649,7 @@ func c16Case(ctx *core.Ctx, e *gen.Entry, t *gen.Typed, r *rand.Rand, k int) {
 
 	// ---- read side
 	c16TypedHistory(h, t, file, n, r)
+	c16ReaderHistory(h, e, file, n, r)
 	c16RowsHistory(h, file, r)
 	c16PagesHistory(h, file, r)
 	c16ValueReaderHistory(h, file, r)
@@ -803,16 +817,48 @@ func c16WriteSide(ctx *core.Ctx, h *c16Hist, e *gen.Entry, t *gen.Typed, rows re
 }
 
 // GenericReader.Read batches, SeekToRow, ReadRows, Close.
+// c16PendingRows is what the previous ReadRows call on one reader returned (not cloned): it must be
+// intact until the next call on that reader, whatever else happens in the process.
+type c16PendingRows struct {
+	rows []parquet.Row
+	snap string
+}
+
+func (p *c16PendingRows) set(rows []parquet.Row) {
+	p.rows, p.snap = rows, c16RowsText(rows)
+}
+
+func (p *c16PendingRows) check(h *c16Hist, r *rand.Rand, reader string) {
+	if p.rows == nil {
+		return
+	}
+	if r.Intn(2) == 0 {
+		c16Churn(r, 1)
+	}
+	if now := c16RowsText(p.rows); now != p.snap {
+		h.ctx.Fail("L1", "row-changed-before-next-call", "rows returned by "+reader+".ReadRows changed before the next call on the same reader",
+			h.detail(map[string]any{"reader": reader, "before": c16Trunc(p.snap), "after": c16Trunc(now), "history": h.ops}))
+	}
+	p.rows = nil
+}
+
+// GenericReader: Read batches (fresh and REUSED destination slices, the caller keeping shallow
+// copies of the rows), ReadRows, SeekToRow, Reset (rewind and re-read), Close.
 func c16TypedHistory(h *c16Hist, t *gen.Typed, file []byte, n int, r *rand.Rand) {
 	tr, err := t.NewReader(bytes.NewReader(file))
 	if err != nil {
 		h.ctx.Hist("outcome", "open-error")
 		return
 	}
-	nops := 3 + r.Intn(6)
+	var pending c16PendingRows
+	// one destination slice reused by every ReadInto call, as an application looping over Read does
+	reuseLen := []int{1, 2, 3, 7, 20, 64}[r.Intn(6)]
+	reused := reflect.ValueOf(tr.NewBatch(reuseLen))
+	nops := 5 + r.Intn(8)
 	for i := 0; i < nops; i++ {
-		switch r.Intn(6) {
-		case 0, 1, 2:
+		pending.check(h, r, "GenericReader")
+		switch r.Intn(10) {
+		case 0, 1:
 			k := []int{1, 2, 7, 64, 300}[r.Intn(5)]
 			batch, got, err := tr.Read(k)
 			h.op("Read(%d)=%d", k, got)
@@ -823,16 +869,37 @@ func c16TypedHistory(h *c16Hist, t *gen.Typed, file []byte, n int, r *rand.Rand)
 			if err != nil && err != io.EOF {
 				h.ctx.Hist("outcome", "read-error")
 			}
-		case 3:
+		case 2, 3, 4:
+			// the destination is reused; the caller keeps the rows it got (shallow: struct values with
+			// their slice headers, strings and pointers), like `kept = append(kept, batch[:n]...)`
+			got, _ := tr.ReadInto(reused.Interface())
+			h.op("ReadInto(reused %d)=%d", reuseLen, got)
+			if got > 0 {
+				kept := reflect.MakeSlice(reused.Type(), got, got)
+				reflect.Copy(kept, reused.Slice(0, got))
+				h.hold(fmt.Sprintf("GenericReader.Read into a reused batch of %d (rows kept by shallow copy)", reuseLen), kept.Interface())
+				h.ctx.Hist("typed-op", "read-reused")
+			}
+			h.verify("GenericReader.Read into the reused batch")
+		case 5:
 			pos := int64(r.Intn(n + 1))
+			if r.Intn(3) == 0 {
+				pos = 0
+			}
 			tr.SeekToRow(pos)
 			h.op("SeekToRow(%d)", pos)
 			h.verify("GenericReader.SeekToRow")
-		case 4:
-			rows := make([]parquet.Row, 1+r.Intn(20))
+		case 6:
+			tr.Reset()
+			h.op("Reset")
+			h.ctx.Hist("typed-op", "reset")
+			h.verify("GenericReader.Reset")
+		case 7, 8:
+			rows := make([]parquet.Row, 1+r.Intn(40))
 			got, _ := tr.ReadRows(rows)
 			h.op("ReadRows(%d)=%d", len(rows), got)
 			if got > 0 {
+				pending.set(rows[:got])
 				h.holdClones("GenericReader.ReadRows + Row.Clone", rows[:got])
 			}
 			h.verify("GenericReader.ReadRows")
@@ -842,9 +909,61 @@ func c16TypedHistory(h *c16Hist, t *gen.Typed, file []byte, n int, r *rand.Rand)
 			h.verify("unrelated reader/writer activity")
 		}
 	}
+	pending.check(h, r, "GenericReader")
 	tr.Close()
 	h.op("Close")
 	h.verify("GenericReader.Close")
+}
+
+// The deprecated Reader: Read(&row) one by one, ReadRows, Reset, SeekToRow.
+func c16ReaderHistory(h *c16Hist, e *gen.Entry, file []byte, n int, r *rand.Rand) {
+	defer func() {
+		if p := recover(); p != nil {
+			h.ctx.Hist("outcome", "reader-panic")
+		}
+	}()
+	rd := parquet.NewReader(bytes.NewReader(file), e.Schema)
+	var pending c16PendingRows
+	for i := 0; i < 4+r.Intn(6); i++ {
+		pending.check(h, r, "Reader")
+		switch r.Intn(5) {
+		case 0, 1:
+			rows := make([]parquet.Row, 1+r.Intn(40))
+			got, _ := rd.ReadRows(rows)
+			h.op("Reader.ReadRows(%d)=%d", len(rows), got)
+			if got > 0 {
+				pending.set(rows[:got])
+				h.holdClones("Reader.ReadRows + Row.Clone", rows[:got])
+			}
+			h.verify("Reader.ReadRows")
+		case 2:
+			row := reflect.New(e.Type)
+			if err := rd.Read(row.Interface()); err == nil {
+				one := reflect.MakeSlice(reflect.SliceOf(e.Type), 1, 1)
+				one.Index(0).Set(row.Elem())
+				h.hold("Reader.Read(&row)", one.Interface())
+			}
+			h.op("Reader.Read")
+			h.verify("Reader.Read")
+		case 3:
+			rd.Reset()
+			h.op("Reader.Reset")
+			h.ctx.Hist("typed-op", "reader-reset")
+			h.verify("Reader.Reset")
+		default:
+			pos := int64(0)
+			if r.Intn(2) == 0 {
+				pos = int64(r.Intn(n + 1))
+			}
+			rd.SeekToRow(pos)
+			h.op("Reader.SeekToRow(%d)", pos)
+			h.verify("Reader.SeekToRow")
+		}
+	}
+	pending.check(h, r, "Reader")
+	rd.Close()
+	h.op("Reader.Close")
+	h.verify("Reader.Close")
 }
 
 // Rows().ReadRows: the returned rows must be unchanged until the next call on the same reader.
@@ -868,7 +987,7 @@ func c16RowsHistory(h *c16Hist, file []byte, r *rand.Rand) {
 			var pending []parquet.Row // returned by the previous call, not cloned
 			var pendingSnap string
 			calls := 0
-			for calls < 12 {
+			for calls < 16 {
 				calls++
 				// before the next call on this reader: what the previous call returned is intact
 				if pending != nil {
@@ -882,10 +1001,21 @@ func c16RowsHistory(h *c16Hist, file []byte, r *rand.Rand) {
 				}
 				if r.Intn(5) == 0 && rg.NumRows() > 0 {
 					pos := r.Int63n(rg.NumRows())
+					if r.Intn(3) == 0 {
+						pos = 0
+					}
 					rows.SeekToRow(pos)
 					h.op("rg%d.SeekToRow(%d)", gi, pos)
 					pending = nil
 					h.verify("Rows.SeekToRow")
+					continue
+				}
+				if rs, ok := rows.(interface{ Reset() }); ok && r.Intn(6) == 0 {
+					rs.Reset()
+					h.op("rg%d.Reset", gi)
+					h.ctx.Hist("typed-op", "rows-reset")
+					pending = nil
+					h.verify("Rows.Reset")
 					continue
 				}
 				if r.Intn(2) == 0 {
@@ -1041,7 +1171,7 @@ func c16ValueReaderHistory(h *c16Hist, file []byte, r *rand.Rand) {
 	buf := make([]parquet.Value, []int{1, 7, 64, 1000}[r.Intn(4)])
 	var pending []parquet.Value
 	var pendingSnap string
-	for calls := 0; calls < 10; calls++ {
+	for calls := 0; calls < 14; calls++ {
 		if pending != nil {
 			if r.Intn(2) == 0 {
 				c16Churn(r, 1)
@@ -1050,6 +1180,18 @@ func c16ValueReaderHistory(h *c16Hist, file []byte, r *rand.Rand) {
 				h.ctx.Fail("L1", "values-changed-before-next-call", "values returned by ColumnChunkValueReader.ReadValues changed before the next call on the same reader",
 					h.detail(map[string]any{"column": ci, "before": c16Trunc(pendingSnap), "after": c16Trunc(now), "history": h.ops}))
 			}
+		}
+		if r.Intn(6) == 0 {
+			if r.Intn(2) == 0 {
+				vr.SeekToRow(0)
+				h.op("col%d.valuereader.SeekToRow(0)", ci)
+			} else if rs, ok := vr.(interface{ Reset() }); ok {
+				rs.Reset()
+				h.op("col%d.valuereader.Reset", ci)
+			}
+			pending = nil
+			h.verify("ColumnChunkValueReader.SeekToRow(0)/Reset")
+			continue
 		}
 		if r.Intn(3) == 0 {
 			buf = make([]parquet.Value, len(buf)) // keep the old values with the caller
